@@ -128,6 +128,19 @@ def cases(tier, seed):
                         for cot in ["dense", "interior"]:
                             for od in (["1cg", "2"] if quick else ORDERS):
                                 add(fam, rep, m, "inherit", "inc4", rg, cot, od, pl, seed)
+        # [E] dependent parameters: the tensor passed as w is a function of the leaf behind p
+        for fam in FAMS:
+            for rep in ("fn", "edit"):
+                for m in (["rk4", "rk45"] if quick else list(METHODS)):
+                    for g in ["inc4", "inc4-dec"]:
+                        for rg in ["p+w", "y0+p+w+ts"]:
+                            for od in ORDERS:
+                                cfgE = _case(fam, rep, m, "inherit", g, rg, "dense", od, pl, seed)
+                                cfgE["dep"] = 1
+                                key = tuple(sorted(cfgE.items()))
+                                if key not in seen:
+                                    seen.add(key)
+                                    out.append(cfgE)
         # [D] grids
         famD = ["tdecay"] if quick else ["tdecay", "logistic"]
         for fam in famD:
@@ -315,8 +328,13 @@ def _inputs(cfg, v, rgset, as_reference):
     else:
         y0 = leaf(v["y0"], "y0" in rgset)
     p = leaf(v["p"], "p" in rgset)
+    if cfg.get("dep"):
+        # dependent parameters: the tensor handed to the library as w is a function of the leaf p (and of its own
+        # leaf wl); numerically it equals the instance value.  Gradients are taken w.r.t. the leaves.
+        wl = leaf([a - 0.25 * b for a, b in zip(v["w"], v["p"])], "w" in rgset)
+        return ts, y0, p, wl + 0.25 * p, wl
     w = leaf(v["w"], "w" in rgset)
-    return ts, y0, p, w
+    return ts, y0, p, w, w
 
 
 def _experiment(cfg, v, m):
@@ -325,7 +343,7 @@ def _experiment(cfg, v, m):
     fam, rep, method = cfg["family"], cfg["rep"], cfg["method"]
     rgset = cfg["rg"].split("+")
     tuple_state = fam == "osc"
-    ts, y0, p, w = _inputs(cfg, v, rgset, False)
+    ts, y0, p, w, w_leaf = _inputs(cfg, v, rgset, False)
     c = torch.tensor(v["c"], dtype=DT)
     k = torch.tensor(v["k"], dtype=DT)
     xp = torch.tensor([0.77], dtype=DT, requires_grad=("p" in rgset))
@@ -364,7 +382,7 @@ def _experiment(cfg, v, m):
         ins["p"] = p
         ins["xp"] = xp
     if "w" in rgset:
-        ins["w"] = w_obj
+        ins["w"] = w_leaf if cfg.get("dep") else w_obj
         ins["xw"] = xw_obj
     if "ts" in rgset:
         ins["ts"] = ts
@@ -405,7 +423,7 @@ def _reference(cfg, v):
     fam = cfg["family"]
     rgset = cfg["rg"].split("+")
     tuple_state = fam == "osc"
-    ts, y0, p, w = _inputs(cfg, v, rgset, True)
+    ts, y0, p, w, w_leaf = _inputs(cfg, v, rgset, True)
     c = torch.tensor(v["c"], dtype=DT)
     k = torch.tensor(v["k"], dtype=DT)
     n = len(GRIDS[cfg["grid"]])
@@ -413,7 +431,7 @@ def _reference(cfg, v):
     ye = exact(fam, ts, y0, c, v["s"], p, w, k)
     rows = list(ye) if tuple_state else [ye]
     L = sum((r * ct).sum() for r, ct in zip(rows, cots))
-    allin = {"p": p, "w": w, "ts": ts}
+    allin = {"p": p, "w": w_leaf, "ts": ts}
     if tuple_state:
         allin["y0"], allin["v0"] = y0
     else:
